@@ -2,6 +2,7 @@ package world
 
 import (
 	"encoding/json"
+	"sort"
 	"strings"
 
 	josejson "github.com/square/go-jose/v3/json"
@@ -78,6 +79,7 @@ func HdrFactsOf(part string) (gallina string, names []string, alg *string, paylo
 				for k := range m {
 					names = append(names, k)
 				}
+				sort.Strings(names)
 				if s, ok := m["alg"].(string); ok {
 					alg = &s
 				}
